@@ -1,0 +1,26 @@
+//go:build verif
+
+package transport
+
+import (
+	"net"
+
+	"github.com/gammazero/nexus/v3/stdlog"
+	"github.com/gammazero/nexus/v3/transport/serialize"
+	"github.com/gammazero/nexus/v3/wamp"
+)
+
+// VerifClientHandshake exposes the client side of the rawsocket handshake for
+// use over an arbitrary net.Conn (verification builds only, build tag verif).
+func VerifClientHandshake(conn net.Conn, logger stdlog.StdLog, serialization serialize.Serialization, recvLimit int) (wamp.Peer, error) {
+	protocol, err := getProtoByte(serialization)
+	if err != nil {
+		return nil, err
+	}
+	peer, err := clientHandshake(conn, logger, protocol, recvLimit)
+	if err != nil {
+		_ = conn.Close()
+		return nil, err
+	}
+	return peer, nil
+}
